@@ -9,9 +9,13 @@ ID = 'C12'
 GENS = ['units']
 TARGETS = ['BC.Props.C12']
 PROP_FILES = ['BC/Props/C12.lean', 'BC/Lemmas/C12.lean', 'BC/Lemmas/Vec.lean']
+# source ties: function bodies regenerated from the Python source by translate/t_funcs.py, proved equal to the model functions
+SRC = {'module': 'BC.Props.C12Src', 'file': 'BC/Props/C12Src.lean',
+       'theorems': ['C12_src_wind_vector', 'C12_src_sock_init', 'C12_src_sock_vector_for_range', 'C12_src_sock_current_vector']}
 THEOREMS = ['C12_mirror_wind', 'C12_mirror_step', 'C12_mirror_run', 'C12_zero_wind', 'C12_zero_winds_sock', 'C12_sock_invariant',
             'C12_sorted_any_order', 'C12_causal', 'C12_crosswind_step']
 STATEMENTS = {
+    'C12_src_sock_vector_for_range': 'SOURCE TIE (all C12_src_*): _WindSock.__init__ (with update_cache), vector_for_range, current_vector and Wind.vector, executed symbolically from the Python source on every run, equal WindSock.init / update / windVector of the model',
     'C12_mirror_wind': 'windVector v (-d) = mirror (windVector v d)',
     'C12_mirror_step': 'step commutes with z -> -z (wind mirrored, state mirrored); drag and speed equal',
     'C12_mirror_run': 'induction over the steps: the whole physical state sequence of the mirrored shot is the mirror image',
